@@ -18,5 +18,5 @@ func TestTypedChain(t *testing.T) { vkit.Check(t, collTyped, GenTyped, RunTyped)
 
 func TestReplay(t *testing.T) {
 	r := vkit.NeedReplay(t)
-	_ = vkit.ReplayCase(t, r, collRaw, Run) || vkit.ReplayCase(t, r, collTyped, RunTyped)
+	_ = vkit.ReplayCase(t, r, collFuzz, Run) || vkit.ReplayCase(t, r, collRaw, Run) || vkit.ReplayCase(t, r, collTyped, RunTyped)
 }
